@@ -107,12 +107,36 @@ func TestC15Crash(t *testing.T) {
 		defer r.Cleanup()
 		w := crashrig.NewWorld(r)
 
-		// which write-cache deletions of the current operation already happened
-		// (classification of the known-finding class only)
+		// Classification of the known-finding class only: addresses for which the
+		// current Delete / GC operation (deleteObjs) has already dropped the
+		// write-cache copy while its metabase record is not deleted yet (the next
+		// blob step of deleteObjs comes after metaBase.Delete and clears it).
 		wcDeleted := map[oid.Address]bool{}
+		var kinds []string
+		w.OnOp = func(op crashrig.Op, phase string, _ error) {
+			r.Lock()
+			defer r.Unlock()
+			if phase == "begin" {
+				kinds = append(kinds, op.Kind)
+			} else {
+				kinds = kinds[:len(kinds)-1]
+			}
+			clear(wcDeleted)
+		}
 		r.OnStep = func(st crashrig.Step) {
-			if st.Comp == "wc" && st.Method == "Delete" && st.After && st.Err == nil {
+			k := ""
+			if len(kinds) > 0 {
+				k = kinds[len(kinds)-1]
+			}
+			if k != crashrig.KDel && k != crashrig.KGC {
+				return
+			}
+			switch {
+			case st.Comp == "wc" && st.Method == "Delete" && st.After && st.Err == nil:
 				wcDeleted[st.Addrs[0]] = true
+			case st.Comp == "blob":
+				// deleteObjs reached its blob step: metaBase.Delete is done
+				clear(wcDeleted)
 			}
 		}
 		r.SnapMeta = func() any {
@@ -131,9 +155,6 @@ func TestC15Crash(t *testing.T) {
 		for i := 0; i < n; i++ {
 			op := w.Draw(t, crashrig.Allow{Race: true, Reopen: true}, false)
 			ops = append(ops, op)
-			r.Lock()
-			clear(wcDeleted)
-			r.Unlock()
 			r.Begin(i, op.String())
 			if err := w.Apply(op); err != nil {
 				ev.Inconclusive("C15: %v (history %s)", err, crashrig.OpsString(ops))
